@@ -1,6 +1,8 @@
 """Test-suite traces restricted to Add events (see suite.py)."""
 from harness.drivers.suite import expand, run_case  # noqa: F401
 
+CASE_TIMEOUT = 900
+
 
 def jobs(tier, seed):
     return [{"kinds": "Add"}]
